@@ -81,27 +81,31 @@ Lemma rt_proj_app : forall u a b, rt_proj u (a ++ b) = rt_proj u a ++ rt_proj u 
 Proof. intros. unfold rt_proj. apply flat_map_app. Qed.
 
 (* a closed history: transmissions of the same bytes, then exactly one outcome *)
-(* an outcome after j retransmissions: removed by an ACK, or one NACK call - and if its reason is
-   TOO_MANY_RETRIES then j is exactly the message's max_retransmit (the other reasons: RST from
-   the peer, or the reason given to coap_session_disconnected) *)
+(* an outcome after j transmissions: removed by an ACK (or implicitly acknowledged, or deleted), or
+   one NACK call - the node's counter c then is j - 1, and if the reason is TOO_MANY_RETRIES then
+   c is exactly the message's max_retransmit (the other reasons: RST from the peer, or the reason
+   given to coap_session_disconnected; only the latter can hit a message that still waits for an
+   NSTART slot: c = -1, j = 0) *)
 Definition rt_outcome_ok (j : nat) (o : rt_tag) : Prop :=
   match o with
   | PAcked => True
-  | PNack r c mx => Z.of_nat j = c /\ 0 <= c <= mx /\ mx <= 255 /\
+  | PNack r c mx => Z.of_nat j = c + 1 /\ -1 <= c <= mx /\ mx <= 255 /\
                     (r = rt_NACK_TOO_MANY_RETRIES -> c = mx)
   | PTx _ => False
   end.
 Definition rt_closed (l : list rt_tag) : Prop :=
-  exists b j o, l = repeat (PTx b) (S j) ++ [o] /\ (j <= 255)%nat /\ rt_outcome_ok j o.
-(* an open history of a queued node: cnt + 1 transmissions of its bytes *)
+  exists b j o, l = repeat (PTx b) j ++ [o] /\ (j <= 256)%nat /\ rt_outcome_ok j o.
+(* an open history of a pending node: cnt + 1 transmissions of its bytes (none while it waits
+   for a slot, cnt = -1) *)
 Definition rt_open (n : sq_node) (l : list rt_tag) : Prop :=
-  l = repeat (PTx (qn_bytes n)) (S (Z.to_nat (qn_cnt n))).
+  l = repeat (PTx (qn_bytes n)) (Z.to_nat (qn_cnt n + 1)).
 
 Definition rt_node_ok (tr : list rt_out) (k : Z) (n : sq_node) : Prop :=
-  0 <= qn_uid n < k /\ 0 <= qn_cnt n <= qn_max n /\ qn_max n <= 255 /\
+  0 <= qn_uid n < k /\ -1 <= qn_cnt n <= qn_max n /\ 0 <= qn_max n <= 255 /\
   rt_open n (rt_proj (qn_uid n) tr).
 
-(* the relation between the outputs so far, the number of accepted messages and the queue *)
+(* the relation between the outputs so far, the number of accepted messages and the pending
+   messages (queued or waiting for a slot) *)
 Definition rt_rel (tr : list rt_out) (k : Z) (ns : list sq_node) : Prop :=
   0 <= k /\
   NoDup (map qn_uid ns) /\
@@ -135,13 +139,16 @@ Proof.
   - intros u Hu. rewrite rt_proj_app, N, app_nil_r. apply C. exact Hu.
 Qed.
 
-(* a new message: fresh uid k, transmitted once *)
-Lemma rt_rel_add : forall tr k ns t s m b T mx,
-  0 <= mx <= 255 ->
+(* a new message with fresh uid k: o is what the trace gets (its first transmission, or nothing
+   while it waits), c its counter (0, or -1) *)
+Lemma rt_rel_add_gen : forall tr k ns s m b T mx c o,
+  0 <= mx <= 255 -> -1 <= c <= 0 ->
+  rt_proj k o = repeat (PTx b) (Z.to_nat (c + 1)) ->
+  (forall u, u <> k -> rt_proj u o = []) ->
   rt_rel tr k ns ->
-  rt_rel (tr ++ [RoTx t k s b 0 T; RoSent m]) (k + 1) (sq_mk_node k s m 0 T mx b :: ns).
+  rt_rel (tr ++ o) (k + 1) (sq_mk_node k s m c T mx b :: ns).
 Proof.
-  intros tr k ns t s m b T mx Hmx (K & D & F & C).
+  intros tr k ns s m b T mx c o Hmx Hc Po Pother (K & D & F & C).
   assert (Fresh : ~ In k (map qn_uid ns)).
   { intros I. apply in_map_iff in I. destruct I as (n & E & I).
     rewrite Forall_forall in F. destruct (F n I) as (A & _). lia. }
@@ -149,50 +156,61 @@ Proof.
   - cbn. constructor; assumption.
   - constructor.
     + unfold rt_node_ok, rt_open. cbn [qn_uid qn_cnt qn_max qn_bytes]. repeat split; try lia.
-      rewrite rt_proj_app. destruct (C k Fresh) as [_ E]. rewrite E by lia.
-      cbn. rewrite Z.eqb_refl. reflexivity.
+      rewrite rt_proj_app. destruct (C k Fresh) as [_ E]. rewrite E by lia. exact Po.
     + rewrite Forall_forall in *. intros n I. destruct (F n I) as (A & B & M & O).
-      repeat split; try lia. unfold rt_open in *. rewrite rt_proj_app.
-      assert (Ne : (k =? qn_uid n) = false) by lia.
-      cbn. rewrite Ne. cbn. rewrite app_nil_r. exact O.
-  - intros u Hu. cbn in Hu. assert (Hk : u <> k) by (intros X; apply Hu; left; congruence). assert (Hn : ~ In u (map qn_uid ns)) by tauto.
-    rewrite rt_proj_app. assert (Ne : (k =? u) = false) by lia.
-    cbn. rewrite Ne. cbn. rewrite app_nil_r.
+      repeat split; try lia. unfold rt_open in *. rewrite rt_proj_app, Pother, app_nil_r; [exact O|lia].
+  - intros u Hu. cbn in Hu. assert (Hk : u <> k) by (intros X; apply Hu; left; congruence).
+    assert (Hn : ~ In u (map qn_uid ns)) by tauto.
+    rewrite rt_proj_app, (Pother u Hk), app_nil_r.
     destruct (C u Hn) as [C1 C2]. split; intros; [apply C1|apply C2]; lia.
 Qed.
 
-(* the head node is transmitted again and its counter goes up *)
-Lemma rt_rel_bump : forall tr k n ns t,
-  qn_cnt n < qn_max n ->
-  rt_rel tr k (n :: ns) ->
-  rt_rel (tr ++ [RoTx t (qn_uid n) (qn_sess n) (qn_bytes n) ((qn_cnt n + 1) mod 256) (qn_timeout n)]) k
-         (sq_mk_node (qn_uid n) (qn_sess n) (qn_mid n) ((qn_cnt n + 1) mod 256) (qn_timeout n)
-                     (qn_max n) (qn_bytes n) :: ns).
+Lemma rt_rel_add : forall tr k ns t s m b T mx,
+  0 <= mx <= 255 ->
+  rt_rel tr k ns ->
+  rt_rel (tr ++ [RoTx t k s b 0 T; RoSent m]) (k + 1) (sq_mk_node k s m 0 T mx b :: ns).
 Proof.
-  intros tr k n ns t Hc (K & D & F & C). inversion F as [|? ? (A & B & M & O) F']; subst.
+  intros. apply rt_rel_add_gen; auto; try lia.
+  - cbn. rewrite Z.eqb_refl. reflexivity.
+  - intros u Hu. cbn. assert (X : (k =? u) = false) by lia. rewrite X. reflexivity.
+Qed.
+
+Lemma rt_rel_add_held : forall tr k ns s m b T mx,
+  0 <= mx <= 255 ->
+  rt_rel tr k ns ->
+  rt_rel (tr ++ [RoSent m]) (k + 1) (sq_mk_node k s m (-1) T mx b :: ns).
+Proof. intros. apply rt_rel_add_gen; auto; try lia; reflexivity. Qed.
+
+(* a pending node is transmitted (again, or for the first time) and its counter goes up *)
+Lemma rt_rel_bump : forall tr k n ns t c,
+  c = qn_cnt n + 1 -> qn_cnt n < qn_max n ->
+  rt_rel tr k (n :: ns) ->
+  rt_rel (tr ++ [RoTx t (qn_uid n) (qn_sess n) (qn_bytes n) c (qn_timeout n)]) k
+         (rt_bump_node n c :: ns).
+Proof.
+  intros tr k n ns t c Ec Hc (K & D & F & C). inversion F as [|? ? (A & B & M & O) F']; subst.
   cbn in D. inversion D as [|? ? Dn D']; subst.
-  assert (Em : (qn_cnt n + 1) mod 256 = qn_cnt n + 1) by (apply Z.mod_small; lia).
   split; [exact K|]. split; [|split].
   - cbn. constructor; assumption.
   - constructor.
-    + unfold rt_node_ok, rt_open in *. cbn [qn_uid qn_cnt qn_max qn_bytes]. rewrite Em.
+    + unfold rt_node_ok, rt_open, rt_bump_node in *. cbn [qn_uid qn_cnt qn_max qn_bytes].
       repeat split; try lia. rewrite rt_proj_app, O. cbn [rt_proj flat_map rt_proj1].
       rewrite Z.eqb_refl. change ([PTx (qn_bytes n)] ++ []) with [PTx (qn_bytes n)].
-      replace (Z.to_nat (qn_cnt n + 1)) with (S (Z.to_nat (qn_cnt n))) by lia.
+      replace (Z.to_nat (qn_cnt n + 1 + 1)) with (S (Z.to_nat (qn_cnt n + 1))) by lia.
       rewrite <- repeat_cons. reflexivity.
     + rewrite Forall_forall in *. intros n' I. destruct (F' n' I) as (A' & B' & M' & O').
       repeat split; try lia. unfold rt_open in *. rewrite rt_proj_app.
       assert (Ne : (qn_uid n =? qn_uid n') = false).
       { apply Z.eqb_neq. intros E. apply Dn. rewrite E. apply in_map. exact I. }
       cbn. rewrite Ne. cbn. rewrite app_nil_r. exact O'.
-  - intros u Hu. cbn [map qn_uid] in Hu. cbn in Hu.
+  - intros u Hu. cbn [map qn_uid rt_bump_node] in Hu. cbn in Hu.
     assert (Ne : (qn_uid n =? u) = false) by (apply Z.eqb_neq; tauto).
     rewrite rt_proj_app. cbn. rewrite Ne. cbn. rewrite app_nil_r. apply C. cbn. tauto.
 Qed.
 
-(* the head node leaves the queue with one outcome *)
+(* a pending node ends with one outcome *)
 Lemma rt_rel_drop : forall tr k n ns o tag,
-  (rt_node_ok tr k n -> rt_outcome_ok (Z.to_nat (qn_cnt n)) tag) ->
+  (rt_node_ok tr k n -> rt_outcome_ok (Z.to_nat (qn_cnt n + 1)) tag) ->
   rt_proj (qn_uid n) o = [tag] ->
   (forall u, u <> qn_uid n -> rt_proj u o = []) ->
   rt_rel tr k (n :: ns) ->
@@ -207,13 +225,13 @@ Proof.
     intros E. apply Dn. rewrite <- E. apply in_map. exact I.
   - intros u Hu. rewrite rt_proj_app. destruct (Z.eq_dec u (qn_uid n)) as [E|Ne].
     + subst u. rewrite Po. split; [|intros; lia]. intros _.
-      unfold rt_open in O. rewrite O. exists (qn_bytes n), (Z.to_nat (qn_cnt n)), tag.
+      unfold rt_open in O. rewrite O. exists (qn_bytes n), (Z.to_nat (qn_cnt n + 1)), tag.
       split; [reflexivity|]. split; [lia|exact Ho'].
     + rewrite Pother by exact Ne. rewrite app_nil_r. apply C. cbn.
       intros [X|X]; [apply Ne; congruence|apply Hu; exact X].
 Qed.
 
-(* several nodes leave the queue, each with the ghost mark of an implicit acknowledgement *)
+(* several nodes end, each with the ghost mark of an (implicit) acknowledgement *)
 Lemma rt_rel_drop_acked : forall t rm tr k ns,
   rt_rel tr k (rm ++ ns) ->
   rt_rel (tr ++ map (fun n => RoAcked t (qn_uid n)) rm) k ns.
@@ -228,7 +246,7 @@ Proof.
     + intros u Hu. cbn. assert (X : (qn_uid n =? u) = false) by lia. rewrite X. reflexivity.
 Qed.
 
-(* several nodes leave the queue, each with one NACK call of the same reason *)
+(* several nodes end, each with one NACK call of the same reason *)
 Lemma rt_rel_drop_nacked : forall t reason rm tr k ns,
   reason <> rt_NACK_TOO_MANY_RETRIES ->
   rt_rel tr k (rm ++ ns) ->
@@ -246,52 +264,292 @@ Proof.
     + intros u Hu. cbn. assert (X : (qn_uid n =? u) = false) by lia. rewrite X. reflexivity.
 Qed.
 
+(* ------------------------------------------------------------------ the session table *)
+Lemma rt_sget_sset : forall s e tbl, rt_sget s (rt_sset s e tbl) = e.
+Proof.
+  intros s e. induction tbl as [|[k e0] r IH]; cbn.
+  - rewrite Z.eqb_refl. reflexivity.
+  - destruct (k =? s) eqn:E; cbn; rewrite E; [reflexivity|exact IH].
+Qed.
+
+Lemma rt_sget_sset_other : forall s s' e tbl, s' <> s -> rt_sget s' (rt_sset s e tbl) = rt_sget s' tbl.
+Proof.
+  intros s s' e tbl Hs. induction tbl as [|[k e0] r IH]; cbn.
+  - assert (X : (s =? s') = false) by lia. rewrite X. reflexivity.
+  - destruct (k =? s) eqn:E; cbn.
+    + assert (X : (k =? s') = false) by lia. rewrite X. reflexivity.
+    + destruct (k =? s'); [reflexivity|exact IH].
+Qed.
+
+Lemma rt_sset_sset : forall s e1 e2 tbl, rt_sset s e2 (rt_sset s e1 tbl) = rt_sset s e2 tbl.
+Proof.
+  intros s e1 e2. induction tbl as [|[k e0] r IH]; cbn.
+  - rewrite Z.eqb_refl. reflexivity.
+  - destruct (k =? s) eqn:E; cbn; rewrite E; [reflexivity|]. rewrite IH. reflexivity.
+Qed.
+
+(* the waiting messages of the table: those of session s, and the rest which an update of s
+   does not touch *)
+Lemma rt_held_get_set : forall s tbl, exists rest,
+  Permutation (rt_held tbl) (si_hold (rt_sget s tbl) ++ rest) /\
+  forall e, Permutation (rt_held (rt_sset s e tbl)) (si_hold e ++ rest).
+Proof.
+  intros s. induction tbl as [|[k e0] r IH].
+  - exists []. split; [apply Permutation_refl|]. intros e. cbn. apply Permutation_refl.
+  - cbn [rt_sget rt_sset]. destruct (k =? s) eqn:E.
+    + exists (rt_held r). split; [apply Permutation_refl|]. intros e. apply Permutation_refl.
+    + destruct IH as (rest & P1 & P2). exists (si_hold e0 ++ rest). split.
+      * cbn [rt_held flat_map snd]. fold (rt_held r).
+        eapply Permutation_trans; [apply Permutation_app_head; exact P1|].
+        rewrite !app_assoc. apply Permutation_app_tail. apply Permutation_app_comm.
+      * intros e. cbn [rt_held flat_map snd]. fold (rt_held (rt_sset s e r)).
+        eapply Permutation_trans; [apply Permutation_app_head; apply P2|].
+        rewrite !app_assoc. apply Permutation_app_tail. apply Permutation_app_comm.
+Qed.
+
+(* every entry of the table keeps con_active between 0 and NSTART *)
+Definition rt_sinfo_ok (e : rt_sinfo) : Prop := 0 <= si_active e <= si_nstart e /\ 1 <= si_nstart e.
+Definition rt_slots_ok (tbl : list (Z * rt_sinfo)) : Prop := Forall (fun p => rt_sinfo_ok (snd p)) tbl.
+
+Lemma rt_sget_ok : forall s tbl, rt_slots_ok tbl -> rt_sinfo_ok (rt_sget s tbl).
+Proof.
+  intros s. induction tbl as [|[k e] r IH]; intros H; cbn.
+  - unfold rt_sinfo_ok. cbn. lia.
+  - inversion H; subst. destruct (k =? s); [assumption|apply IH; assumption].
+Qed.
+
+Lemma rt_sset_ok : forall s e tbl, rt_sinfo_ok e -> rt_slots_ok tbl -> rt_slots_ok (rt_sset s e tbl).
+Proof.
+  intros s e. induction tbl as [|[k e0] r IH]; intros He H; cbn.
+  - constructor; [exact He|constructor].
+  - inversion H; subst. destruct (k =? s); constructor; auto. apply IH; assumption.
+Qed.
+
+(* all pending messages of a state *)
+Definition rt_live (st : rt_state) : list sq_node := rt_nodes (rs_q st) ++ rt_held (rs_sess st).
+
+(* the invariant behind one_outcome: rt_rel over the pending messages (plus those in extra: a node
+   that has just been taken out of the queue and is being processed); the waiting ones have
+   counter -1; slots are within NSTART *)
+Definition rt_invx (tr : list rt_out) (st : rt_state) (extra : list sq_node) : Prop :=
+  rt_rel tr (rs_uid st) (extra ++ rt_live st) /\
+  Forall (fun n => qn_cnt n = -1) (rt_held (rs_sess st)) /\
+  rt_slots_ok (rs_sess st).
+Definition rt_inv (tr : list rt_out) (st : rt_state) : Prop := rt_invx tr st [].
+
 (* ------------------------------------------------------------------ the machine keeps it *)
 Lemma rt_enqueue_nodes : forall st n d,
   Permutation (rt_nodes (rs_q (rt_enqueue st n d))) (n :: rt_nodes (rs_q st)) /\
-  rs_uid (rt_enqueue st n d) = rs_uid st /\ rs_now (rt_enqueue st n d) = rs_now st.
+  rs_uid (rt_enqueue st n d) = rs_uid st /\ rs_now (rt_enqueue st n d) = rs_now st /\
+  rs_sess (rt_enqueue st n d) = rs_sess st.
 Proof.
   intros st n d. unfold rt_enqueue. destruct (rs_q st) as [|e q] eqn:E.
   - cbn. repeat split. apply Permutation_refl.
-  - cbn [rs_q rt_set_q rs_uid rs_now]. repeat split. apply rt_nodes_insert.
+  - cbn [rs_q rt_set_q rs_uid rs_now rs_sess]. repeat split. apply rt_nodes_insert.
 Qed.
 
-Lemma rt_retransmit_rel : forall st n tr,
-  rt_rel tr (rs_uid st) (n :: rt_nodes (rs_q st)) ->
-  let (st', o) := rt_retransmit st n in
-  rt_rel (tr ++ o) (rs_uid st') (rt_nodes (rs_q st')) /\ rs_now st' = rs_now st.
+(* releasing waiting messages: each one moves to the queue with its first transmission *)
+Lemma rt_release_go_rel : forall dq st ns ca tr extra rest,
+  rt_rel tr (rs_uid st) (extra ++ rt_nodes (rs_q st) ++ dq ++ rest) ->
+  Forall (fun n => qn_cnt n = -1) dq -> 0 <= ca <= ns ->
+  match rt_release_go st ns ca dq with
+  | (st2, ca2, dq2, o) =>
+      rt_rel (tr ++ o) (rs_uid st2) (extra ++ rt_nodes (rs_q st2) ++ dq2 ++ rest) /\
+      rs_uid st2 = rs_uid st /\ rs_sess st2 = rs_sess st /\ rs_now st2 = rs_now st /\
+      Forall (fun n => qn_cnt n = -1) dq2 /\ 0 <= ca2 <= ns
+  end.
 Proof.
-  intros st n tr R. unfold rt_retransmit. destruct (qn_cnt n <? qn_max n) eqn:E.
-  - set (n' := sq_mk_node _ _ _ _ _ _ _).
-    destruct (rt_enqueue_nodes st n' (qn_timeout n * 2 ^ ((qn_cnt n + 1) mod 256))) as (P & U & N).
-    split; [|exact N]. rewrite U.
-    eapply rt_rel_perm; [apply Permutation_sym; exact P|]. apply rt_rel_bump; [lia|exact R].
-  - split; [|reflexivity].
-    eapply rt_rel_drop with (n := n) (tag := PNack rt_NACK_TOO_MANY_RETRIES (qn_cnt n) (qn_max n));
-      [intros (A & B & M & O); cbn; repeat split; try lia | | |exact R].
+  induction dq as [|n dq IH]; intros st ns ca tr extra rest R H Hca; cbn [rt_release_go].
+  - rewrite app_nil_r. split; [exact R|]. repeat split; try lia. constructor.
+  - destruct (ns <=? ca) eqn:Ens; [rewrite app_nil_r; split; [exact R|]; repeat split; try lia; exact H|].
+    inversion H as [|? ? Hn H']; subst.
+    set (c := qn_cnt n + 1). set (st1 := rt_enqueue st (rt_bump_node n c) (qn_timeout n * 2 ^ c)).
+    destruct (rt_enqueue_nodes st (rt_bump_node n c) (qn_timeout n * 2 ^ c)) as (P & U & N & S).
+    fold st1 in P, U, N, S.
+    assert (R1 : rt_rel (tr ++ [RoTx (rs_now st) (qn_uid n) (qn_sess n) (qn_bytes n) c (qn_timeout n)])
+                        (rs_uid st1) (extra ++ rt_nodes (rs_q st1) ++ dq ++ rest)).
+    { rewrite U.
+      eapply rt_rel_perm with (ns := rt_bump_node n c :: (extra ++ rt_nodes (rs_q st) ++ dq ++ rest)).
+      - apply Permutation_sym.
+        eapply Permutation_trans; [apply Permutation_app_head; apply Permutation_app_tail; exact P|].
+        cbn [app]. apply Permutation_sym. apply Permutation_middle.
+      - assert (Rn : rt_rel tr (rs_uid st) (n :: extra ++ rt_nodes (rs_q st) ++ dq ++ rest)).
+        { eapply rt_rel_perm; [|exact R]. apply Permutation_sym.
+          eapply Permutation_trans; [apply Permutation_middle|]. apply Permutation_app_head.
+          eapply Permutation_trans; [apply Permutation_middle|]. apply Permutation_refl. }
+        destruct Rn as (K & D & F & C). inversion F as [|? ? (A & B & M & O) F']; subst.
+        apply rt_rel_bump; [reflexivity|lia|]. split; [exact K|split; [exact D|split; [exact F|exact C]]]. }
+    specialize (IH st1 ns (ca + 1) _ extra rest R1 H' ltac:(lia)).
+    destruct (rt_release_go st1 ns (ca + 1) dq) as [[[st2 ca2] dq2] o2].
+    destruct IH as (R2 & U2 & S2 & N2 & H2 & C2).
+    replace (tr ++ RoTx (rs_now st) (qn_uid n) (qn_sess n) (qn_bytes n) c (qn_timeout n) :: o2)
+      with ((tr ++ [RoTx (rs_now st) (qn_uid n) (qn_sess n) (qn_bytes n) c (qn_timeout n)]) ++ o2)
+      by (rewrite <- app_assoc; reflexivity).
+    split; [exact R2|]. split; [congruence|]. split; [congruence|]. split; [congruence|]. split; [exact H2|exact C2].
+Qed.
+
+Lemma rt_release_inv : forall st s tr extra, rt_invx tr st extra ->
+  rt_invx (tr ++ snd (rt_release st s)) (fst (rt_release st s)) extra /\
+  rs_now (fst (rt_release st s)) = rs_now st.
+Proof.
+  intros st s tr extra (R & H & SO). unfold rt_release.
+  destruct (rt_held_get_set s (rs_sess st)) as (rest & P1 & P2).
+  pose proof (rt_sget_ok s _ SO) as Oks.
+  set (si := rt_sget s (rs_sess st)) in *.
+  assert (Hs : Forall (fun n => qn_cnt n = -1) (si_hold si)).
+  { eapply Permutation_Forall in H; [|exact P1]. apply Forall_app in H. tauto. }
+  assert (Hr : Forall (fun n => qn_cnt n = -1) rest).
+  { eapply Permutation_Forall in H; [|exact P1]. apply Forall_app in H. tauto. }
+  assert (R0 : rt_rel tr (rs_uid st) (extra ++ rt_nodes (rs_q st) ++ si_hold si ++ rest)).
+  { eapply rt_rel_perm; [|exact R]. unfold rt_live. apply Permutation_app_head.
+    apply Permutation_app_head. exact P1. }
+  destruct Oks as [Oa On].
+  pose proof (rt_release_go_rel (si_hold si) st (si_nstart si) (si_active si) tr extra rest R0 Hs Oa) as G.
+  destruct (rt_release_go st (si_nstart si) (si_active si) (si_hold si)) as [[[st1 ca] dq] o].
+  destruct G as (R1 & U1 & S1 & N1 & H1 & C1). cbn [fst snd]. split; [|exact N1].
+  split; [|split].
+  - cbn [rt_set_sess rs_uid]. unfold rt_live. cbn [rt_set_sess rs_q rs_sess]. rewrite S1.
+    eapply rt_rel_perm; [|exact R1]. apply Permutation_app_head. apply Permutation_app_head.
+    apply Permutation_sym. apply (P2 (rt_mk_sinfo (si_nstart si) ca dq)).
+  - cbn [rt_set_sess rs_sess]. rewrite S1.
+    eapply Permutation_Forall; [apply Permutation_sym; apply (P2 (rt_mk_sinfo (si_nstart si) ca dq))|].
+    apply Forall_app. auto.
+  - cbn [rt_set_sess rs_sess]. rewrite S1. apply rt_sset_ok; [|exact SO].
+    unfold rt_sinfo_ok. cbn. lia.
+Qed.
+
+(* an update of a session's entry that keeps its waiting messages *)
+Lemma rt_invx_set_same_hold : forall tr st extra s e,
+  si_hold e = si_hold (rt_sget s (rs_sess st)) -> rt_sinfo_ok e ->
+  rt_invx tr st extra -> rt_invx tr (rt_set_sess st (rt_sset s e (rs_sess st))) extra.
+Proof.
+  intros tr st extra s e He Oe (R & H & SO). destruct (rt_held_get_set s (rs_sess st)) as (rest & P1 & P2).
+  assert (P : Permutation (rt_held (rt_sset s e (rs_sess st))) (rt_held (rs_sess st))).
+  { eapply Permutation_trans; [apply P2|]. rewrite He. apply Permutation_sym. exact P1. }
+  split; [|split].
+  - cbn [rt_set_sess rs_uid]. unfold rt_live in *. cbn [rt_set_sess rs_q rs_sess].
+    eapply rt_rel_perm; [|exact R]. apply Permutation_app_head. apply Permutation_app_head.
+    apply Permutation_sym. exact P.
+  - cbn [rt_set_sess rs_sess]. eapply Permutation_Forall; [apply Permutation_sym; exact P|exact H].
+  - cbn [rt_set_sess rs_sess]. apply rt_sset_ok; assumption.
+Qed.
+
+Lemma rt_free_slot_inv : forall st s tr extra, rt_invx tr st extra ->
+  rt_invx (tr ++ snd (rt_free_slot st s)) (fst (rt_free_slot st s)) extra /\
+  rs_now (fst (rt_free_slot st s)) = rs_now st.
+Proof.
+  intros st s tr extra I. unfold rt_free_slot.
+  destruct (0 <? si_active (rt_sget s (rs_sess st))) eqn:E.
+  - set (st0 := rt_set_sess st _).
+    assert (I0 : rt_invx tr st0 extra).
+    { apply rt_invx_set_same_hold; [reflexivity| |exact I].
+      destruct I as (_ & _ & SO). destruct (rt_sget_ok s _ SO) as [Oa On]. unfold rt_sinfo_ok. cbn. lia. }
+    destruct (rt_release_inv st0 s tr extra I0) as [I1 N1]. split; [exact I1|]. rewrite N1. reflexivity.
+  - cbn [fst snd]. rewrite app_nil_r. split; [exact I|reflexivity].
+Qed.
+
+Lemma rt_free_slots_inv : forall k st s tr extra, rt_invx tr st extra ->
+  rt_invx (tr ++ snd (rt_free_slots k st s)) (fst (rt_free_slots k st s)) extra /\
+  rs_now (fst (rt_free_slots k st s)) = rs_now st.
+Proof.
+  induction k as [|k IH]; intros st s tr extra I; cbn [rt_free_slots].
+  - cbn. rewrite app_nil_r. auto.
+  - destruct (rt_free_slot_inv st s tr extra I) as [I1 N1]. destruct (rt_free_slot st s) as [st1 o1].
+    cbn [fst snd] in *. destruct (IH st1 s _ extra I1) as [I2 N2]. destruct (rt_free_slots k st1 s) as [st2 o2].
+    cbn [fst snd] in *. rewrite app_assoc. split; [exact I2|congruence].
+Qed.
+
+(* the node that is being processed ends with one outcome *)
+Lemma rt_invx_drop : forall tr st n extra o tag,
+  (rt_node_ok tr (rs_uid st) n -> rt_outcome_ok (Z.to_nat (qn_cnt n + 1)) tag) ->
+  rt_proj (qn_uid n) o = [tag] -> (forall u, u <> qn_uid n -> rt_proj u o = []) ->
+  rt_invx tr st (n :: extra) -> rt_invx (tr ++ o) st extra.
+Proof.
+  intros tr st n extra o tag Ho Po Pother (R & H & SO). split; [|split; [exact H|exact SO]].
+  eapply rt_rel_drop; eauto.
+Qed.
+
+Lemma rt_invx_neutral : forall tr st extra o, rt_neutral o -> rt_invx tr st extra -> rt_invx (tr ++ o) st extra.
+Proof. intros tr st extra o N (R & H & SO). split; [apply rt_rel_neutral; assumption|split; assumption]. Qed.
+
+(* a state change that keeps uid, table and the queue's nodes up to order *)
+Lemma rt_invx_same : forall tr st st' extra,
+  rs_uid st' = rs_uid st -> rs_sess st' = rs_sess st ->
+  Permutation (rt_nodes (rs_q st')) (rt_nodes (rs_q st)) ->
+  rt_invx tr st extra -> rt_invx tr st' extra.
+Proof.
+  intros tr st st' extra U S P (R & H & SO). split; [|split; rewrite S; assumption].
+  rewrite U. unfold rt_live in *. rewrite S. eapply rt_rel_perm; [|exact R].
+  apply Permutation_app_head. apply Permutation_app_tail. apply Permutation_sym. exact P.
+Qed.
+
+Lemma rt_tok_drop_acked : forall n u, u <> qn_uid n -> rt_proj u [RoAcked 0 (qn_uid n)] = [].
+Proof. intros n u Hu. cbn. assert (X : (qn_uid n =? u) = false) by lia. rewrite X. reflexivity. Qed.
+
+Lemma rt_retransmit_rel : forall st n tr,
+  rt_invx tr st [n] ->
+  let (st', o) := rt_retransmit st n in
+  rt_inv (tr ++ o) st' /\ rs_now st' = rs_now st.
+Proof.
+  intros st n tr I. unfold rt_retransmit. destruct (qn_cnt n <? qn_max n) eqn:E.
+  - destruct I as (R & H & SO). cbn [app] in R.
+    pose proof R as (K & D & F & C). inversion F as [|? ? (A & B & M & O) F']; subst.
+    assert (Em : (qn_cnt n + 1) mod 256 = qn_cnt n + 1) by (apply Z.mod_small; lia).
+    rewrite Em. set (c := qn_cnt n + 1).
+    set (st1 := rt_enqueue st (rt_bump_node n c) (qn_timeout n * 2 ^ c)).
+    destruct (rt_enqueue_nodes st (rt_bump_node n c) (qn_timeout n * 2 ^ c)) as (P & U & N & S).
+    fold st1 in P, U, N, S.
+    assert (I1 : rt_inv (tr ++ [RoTx (rs_now st) (qn_uid n) (qn_sess n) (qn_bytes n) c (qn_timeout n)]) st1).
+    { split; [|rewrite S; split; assumption]. cbn [app]. rewrite U. unfold rt_live. rewrite S.
+      eapply rt_rel_perm with (ns := rt_bump_node n c :: rt_live st).
+      - unfold rt_live. apply Permutation_sym.
+        eapply Permutation_trans; [apply Permutation_app_tail; exact P|]. apply Permutation_refl.
+      - apply rt_rel_bump; [reflexivity|lia|exact R]. }
+    pose proof (rt_sget_ok (qn_sess n) (rs_sess st1) ltac:(rewrite S; exact SO)) as [Oa On].
+    set (si := rt_sget (qn_sess n) (rs_sess st1)) in *.
+    assert (Lt : (si_nstart si <=? (if 0 <? si_active si then si_active si - 1 else si_active si)) = false).
+    { destruct (0 <? si_active si) eqn:E0; lia. }
+    rewrite Lt. split; [|cbn [rt_set_sess rs_now]; exact N].
+    apply rt_invx_set_same_hold; [reflexivity| |exact I1].
+    unfold rt_sinfo_ok. cbn. destruct (0 <? si_active si) eqn:E0; lia.
+  - destruct (rt_free_slot_inv st (qn_sess n) tr [n] I) as [I1 N1].
+    destruct (rt_free_slot st (qn_sess n)) as [st1 o1]. cbn [fst snd] in *.
+    split; [|exact N1]. rewrite app_assoc.
+    eapply rt_invx_drop with (n := n) (tag := PNack rt_NACK_TOO_MANY_RETRIES (qn_cnt n) (qn_max n)); [| | |exact I1].
+    + intros (A & B & M & O). cbn. repeat split; try lia.
     + cbn. rewrite Z.eqb_refl. reflexivity.
     + intros u Hu. cbn. assert (X : (qn_uid n =? u) = false) by lia. rewrite X. reflexivity.
 Qed.
 
 Lemma rt_fire_rel : forall fuel st tr,
-  rt_rel tr (rs_uid st) (rt_nodes (rs_q st)) ->
+  rt_inv tr st ->
   let (st', o) := rt_fire fuel st in
-  rt_rel (tr ++ o) (rs_uid st') (rt_nodes (rs_q st')) /\ rs_now st' = rs_now st.
+  rt_inv (tr ++ o) st' /\ rs_now st' = rs_now st.
 Proof.
   induction fuel as [|f IH]; intros st tr R; cbn [rt_fire].
-  - split; [|reflexivity]. apply rt_rel_neutral; [|exact R].
+  - split; [|reflexivity]. apply rt_invx_neutral; [|exact R].
     intros u. destruct (rt_due st); reflexivity.
   - destruct (rt_due st).
     + destruct (sq_pop (rs_q st)) as [[[t n] q']|] eqn:P.
       * pose proof (rt_nodes_pop _ _ _ _ P) as EN.
-        pose proof (rt_retransmit_rel (rt_set_q st q') n tr) as H1.
-        cbn [rt_set_q rs_uid rs_q] in H1. rewrite <- EN in H1. specialize (H1 R).
+        assert (I0 : rt_invx tr (rt_set_q st q') [n]).
+        { destruct R as (R & H & SO). split; [|split; assumption].
+          cbn [rt_set_q rs_uid app]. unfold rt_live in *. cbn [rt_set_q rs_q rs_sess app] in *.
+          rewrite EN in R. exact R. }
+        pose proof (rt_retransmit_rel (rt_set_q st q') n tr I0) as H1.
         destruct (rt_retransmit (rt_set_q st q') n) as [st1 o1].
         destruct H1 as [R1 N1]. specialize (IH st1 (tr ++ o1) R1).
         destruct (rt_fire f st1) as [st2 o2]. destruct IH as [R2 N2].
         rewrite app_assoc. split; [exact R2|]. rewrite N2, N1. reflexivity.
       * split; [|reflexivity]. rewrite app_nil_r. exact R.
     + split; [|reflexivity]. rewrite app_nil_r. exact R.
+Qed.
+
+Lemma rt_fire_all_rel : forall st tr, rt_inv tr st ->
+  rt_inv (tr ++ snd (rt_fire_all st)) (fst (rt_fire_all st)) /\ rs_now (fst (rt_fire_all st)) = rs_now st.
+Proof.
+  intros st tr I. unfold rt_fire_all. pose proof (rt_fire_rel (rt_budget_all st) st tr I) as H.
+  destruct (rt_fire (rt_budget_all st) st). exact H.
 Qed.
 
 (* events the theorems quantify over: time does not run backwards; max_retransmit as the
@@ -304,96 +562,162 @@ Definition rt_ev_ok (ev : rt_event) : Prop :=
   | _ => True
   end.
 
+(* a node that was found in (and taken out of) the queue: the rest plus the node *)
+Lemma rt_inv_removed : forall tr st s m t n q',
+  sq_remove (rs_q st) s m = Some ((t, n), q') -> rt_inv tr st -> rt_invx tr (rt_set_q st q') [n].
+Proof.
+  intros tr st s m t n q' Rm (R & H & SO). destruct (rt_nodes_remove _ _ _ _ _ _ Rm) as [P _].
+  split; [|split; assumption]. cbn [rt_set_q rs_uid app]. unfold rt_live in *. cbn [rt_set_q rs_q rs_sess app] in *.
+  eapply rt_rel_perm; [|exact R]. apply (Permutation_app_tail _ P).
+Qed.
+
 Lemma rt_step_rel : forall st ev tr,
-  rt_ev_ok ev ->
-  rt_rel tr (rs_uid st) (rt_nodes (rs_q st)) ->
-  let (st', o) := rt_step st ev in
-  rt_rel (tr ++ o) (rs_uid st') (rt_nodes (rs_q st')).
+  rt_ev_ok ev -> rt_inv tr st ->
+  let (st', o) := rt_step st ev in rt_inv (tr ++ o) st'.
 Proof.
   intros st ev tr Hev R. destruct ev as [dt|s m b cfg r| |s m|s m|s m tok|s reason|s m|tmo|]; cbn [rt_step].
-  - cbn. rewrite app_nil_r. exact R.
+  - rewrite app_nil_r. eapply rt_invx_same; [| | |exact R]; reflexivity || apply Permutation_refl.
   - unfold rt_send. set (T := fp_calc_timeout _ _ _ _ _).
-    set (n := sq_mk_node _ _ _ _ _ _ _). set (st1 := rt_mk_state _ _ _ _).
-    destruct (rt_enqueue_nodes st1 n T) as (P & U & _). rewrite U. cbn [st1 rs_uid rs_q] in *.
-    eapply rt_rel_perm; [apply Permutation_sym; exact P|].
-    apply rt_rel_add; [cbn in Hev; lia|exact R].
-  - unfold rt_tick, rt_fire_all.
-    pose proof (rt_fire_rel (rt_budget (rs_q st)) st tr R) as H.
-    destruct (rt_fire (rt_budget (rs_q st)) st) as [st1 o]. destruct H as [H _].
-    destruct (rt_wait st1) as [w hd]. rewrite app_assoc. apply rt_rel_neutral; [|exact H].
+    destruct R as (R & H & SO). cbn [app] in R.
+    destruct (rt_held_get_set s (rs_sess st)) as (rest & P1 & P2).
+    pose proof (rt_sget_ok s _ SO) as [Oa On]. set (si := rt_sget s (rs_sess st)) in *.
+    destruct (si_nstart si <=? si_active si) eqn:Efull.
+    + destruct (existsb (fun n => qn_mid n =? m) (si_hold si)).
+      * apply rt_invx_neutral; [intros u; reflexivity|]. split; [exact R|split; assumption].
+      * set (n := sq_mk_node (rs_uid st) s m (-1) T (rc_max cfg) b).
+        set (e := rt_mk_sinfo (si_nstart si) (si_active si) (si_hold si ++ [n])).
+        assert (Ph : Permutation (rt_held (rt_sset s e (rs_sess st))) (n :: rt_held (rs_sess st))).
+        { eapply Permutation_trans; [apply P2|]. cbn [e si_hold].
+          eapply Permutation_trans; [|apply perm_skip; apply Permutation_sym; exact P1].
+          rewrite <- app_assoc. apply Permutation_sym. apply Permutation_middle. }
+        split; [|split].
+        -- cbn [rs_uid app]. unfold rt_live. cbn [rs_q rs_sess].
+           eapply rt_rel_perm with (ns := n :: rt_live st).
+           ++ unfold rt_live. apply Permutation_sym.
+              eapply Permutation_trans; [apply Permutation_app_head; exact Ph|].
+              apply Permutation_sym. apply Permutation_middle.
+           ++ apply rt_rel_add_held; [cbn in Hev; lia|exact R].
+        -- cbn [rs_sess]. eapply Permutation_Forall; [apply Permutation_sym; exact Ph|].
+           constructor; [reflexivity|exact H].
+        -- cbn [rs_sess]. apply rt_sset_ok; [|exact SO]. unfold rt_sinfo_ok. cbn. lia.
+    + set (n := sq_mk_node (rs_uid st) s m 0 T (rc_max cfg) b).
+      set (e := rt_mk_sinfo (si_nstart si) (si_active si + 1) (si_hold si)).
+      set (st1 := rt_mk_state (rs_now st) (rs_base st) (rs_q st) (rs_uid st + 1) (rt_sset s e (rs_sess st))).
+      destruct (rt_enqueue_nodes st1 n T) as (P & U & _ & S).
+      assert (Ph : Permutation (rt_held (rt_sset s e (rs_sess st))) (rt_held (rs_sess st))).
+      { eapply Permutation_trans; [apply P2|]. apply Permutation_sym. exact P1. }
+      split; [|split].
+      * cbn [app]. rewrite U. unfold rt_live. rewrite S. cbn [st1 rs_uid rs_q rs_sess] in *.
+        eapply rt_rel_perm with (ns := n :: rt_live st).
+        -- unfold rt_live. apply Permutation_sym.
+           eapply Permutation_trans; [apply Permutation_app_tail; exact P|]. cbn [app]. apply perm_skip.
+           apply Permutation_app_head. exact Ph.
+        -- apply rt_rel_add; [cbn in Hev; lia|exact R].
+      * rewrite S. cbn [st1 rs_sess]. eapply Permutation_Forall; [apply Permutation_sym; exact Ph|exact H].
+      * rewrite S. cbn [st1 rs_sess]. apply rt_sset_ok; [|exact SO]. unfold rt_sinfo_ok. cbn. lia.
+  - unfold rt_tick. destruct (rt_fire_all_rel st tr R) as [H _].
+    destruct (rt_fire_all st) as [st1 o]. cbn [fst snd] in H.
+    destruct (rt_wait st1) as [w hd]. rewrite app_assoc. apply rt_invx_neutral; [|exact H].
     intros u; reflexivity.
-  - unfold rt_ack, rt_fire_all. destruct (sq_remove (rs_q st) s m) as [[[t n] q']|] eqn:Rm.
-    + destruct (rt_nodes_remove _ _ _ _ _ _ Rm) as [P _].
-      assert (R1 : rt_rel (tr ++ [RoAcked (rs_now st) (qn_uid n)]) (rs_uid st) (rt_nodes q')).
-      { eapply rt_rel_drop with (n := n) (tag := PAcked); [intros _; exact I| | |].
+  - unfold rt_ack. destruct (sq_remove (rs_q st) s m) as [[[t n] q']|] eqn:Rm.
+    + pose proof (rt_inv_removed tr st s m t n q' Rm R) as I0.
+      assert (I1 : rt_inv (tr ++ [RoAcked (rs_now st) (qn_uid n)]) (rt_set_q st q')).
+      { eapply rt_invx_drop with (n := n) (tag := PAcked); [intros _; exact I| | |exact I0].
         - cbn. rewrite Z.eqb_refl. reflexivity.
-        - intros u Hu. cbn. assert (X : (qn_uid n =? u) = false) by lia. rewrite X. reflexivity.
-        - eapply rt_rel_perm; [exact P|exact R]. }
-      pose proof (rt_fire_rel (rt_budget (rs_q (rt_set_q st q'))) (rt_set_q st q') _ R1) as H.
-      destruct (rt_fire _ (rt_set_q st q')) as [st1 o]. destruct H as [H _].
-      rewrite <- app_assoc in H. exact H.
-    + pose proof (rt_fire_rel (rt_budget (rs_q st)) st tr R) as H.
-      destruct (rt_fire (rt_budget (rs_q st)) st) as [st1 o]. destruct H as [H _]. exact H.
-  - unfold rt_rst, rt_fire_all. destruct (sq_remove (rs_q st) s m) as [[[t n] q']|] eqn:Rm.
-    + destruct (rt_nodes_remove _ _ _ _ _ _ Rm) as [P _].
-      assert (R1 : rt_rel (tr ++ [RoNack (rs_now st) (qn_uid n) (qn_sess n) rt_NACK_RST (qn_mid n)
-                                         (qn_cnt n) (qn_max n)])
-                          (rs_uid st) (rt_nodes q')).
-      { eapply rt_rel_drop with (n := n) (tag := PNack rt_NACK_RST (qn_cnt n) (qn_max n));
-          [intros (A & B & M & O); cbn; repeat split; try lia; intros X; discriminate| | |].
+        - intros u Hu. cbn. assert (X : (qn_uid n =? u) = false) by lia. rewrite X. reflexivity. }
+      destruct (rt_free_slot_inv (rt_set_q st q') s _ [] I1) as [I2 _].
+      destruct (rt_free_slot (rt_set_q st q') s) as [st1 o1]. cbn [fst snd] in I2.
+      destruct (rt_fire_all_rel st1 _ I2) as [I3 _]. destruct (rt_fire_all st1) as [st2 o2]. cbn [fst snd] in I3.
+      replace (tr ++ RoAcked (rs_now st) (qn_uid n) :: o1 ++ o2)
+        with (((tr ++ [RoAcked (rs_now st) (qn_uid n)]) ++ o1) ++ o2)
+        by (repeat rewrite <- app_assoc; reflexivity).
+      exact I3.
+    + destruct (rt_fire_all_rel st tr R) as [H _]. destruct (rt_fire_all st). exact H.
+  - unfold rt_rst. destruct (sq_remove (rs_q st) s m) as [[[t n] q']|] eqn:Rm.
+    + pose proof (rt_inv_removed tr st s m t n q' Rm R) as I0.
+      destruct (rt_free_slot_inv (rt_set_q st q') s tr [n] I0) as [I1 _].
+      destruct (rt_free_slot (rt_set_q st q') s) as [st1 o1]. cbn [fst snd] in I1.
+      set (o0 := [RoNack (rs_now st) (qn_uid n) (qn_sess n) rt_NACK_RST (qn_mid n) (qn_cnt n) (qn_max n)]).
+      assert (I2 : rt_inv ((tr ++ o1) ++ o0) st1).
+      { eapply rt_invx_drop with (n := n) (tag := PNack rt_NACK_RST (qn_cnt n) (qn_max n)); [| | |exact I1].
+        - intros (A & B & M & O). cbn. repeat split; try lia; intros X; discriminate.
         - cbn. rewrite Z.eqb_refl. reflexivity.
-        - intros u Hu. cbn. assert (X : (qn_uid n =? u) = false) by lia. rewrite X. reflexivity.
-        - eapply rt_rel_perm; [exact P|exact R]. }
-      pose proof (rt_fire_rel (rt_budget (rs_q (rt_set_q st q'))) (rt_set_q st q') _ R1) as H.
-      destruct (rt_fire _ (rt_set_q st q')) as [st1 o]. destruct H as [H _].
+        - intros u Hu. cbn. assert (X : (qn_uid n =? u) = false) by lia. rewrite X. reflexivity. }
+      destruct (rt_fire_all_rel st1 _ I2) as [I3 _]. destruct (rt_fire_all st1) as [st2 o2]. cbn [fst snd] in I3.
+      replace (tr ++ o1 ++ RoNack (rs_now st) (qn_uid n) (qn_sess n) rt_NACK_RST (qn_mid n) (qn_cnt n) (qn_max n) :: o2)
+        with (((tr ++ o1) ++ o0) ++ o2) by (unfold o0; repeat rewrite <- app_assoc; reflexivity).
+      exact I3.
+    + assert (R1 : rt_inv (tr ++ [RoNackNoPdu (rs_now st) s rt_NACK_RST m]) st)
+        by (apply rt_invx_neutral; [intros u; reflexivity|exact R]).
+      destruct (rt_fire_all_rel st _ R1) as [H _]. destruct (rt_fire_all st) as [st1 o]. cbn [fst snd] in H.
       rewrite <- app_assoc in H. exact H.
-    + assert (R1 : rt_rel (tr ++ [RoNackNoPdu (rs_now st) s rt_NACK_RST m]) (rs_uid st) (rt_nodes (rs_q st))).
-      { apply rt_rel_neutral; [intros u; reflexivity|exact R]. }
-      pose proof (rt_fire_rel (rt_budget (rs_q st)) st _ R1) as H.
-      destruct (rt_fire (rt_budget (rs_q st)) st) as [st1 o]. destruct H as [H _].
-      rewrite <- app_assoc in H. exact H.
-  - unfold rt_non, rt_fire_all.
+  - unfold rt_non.
     pose proof (rt_nodes_cancel (rt_tok_match s tok) (rs_q st)) as P.
     destruct (sq_cancel (rt_tok_match s tok) (rs_q st)) as [rm q']. cbn [fst snd] in P.
-    assert (R1 : rt_rel (tr ++ map (fun n => RoAcked (rs_now st) (qn_uid n)) rm) (rs_uid st) (rt_nodes q')).
-    { apply rt_rel_drop_acked. eapply rt_rel_perm; [exact P|exact R]. }
-    pose proof (rt_fire_rel (rt_budget (rs_q (rt_set_q st q'))) (rt_set_q st q') _ R1) as H.
-    destruct (rt_fire _ (rt_set_q st q')) as [st1 o]. destruct H as [H _].
-    rewrite <- app_assoc in H. exact H.
+    set (o0 := map (fun n => RoAcked (rs_now st) (qn_uid n)) rm).
+    assert (I1 : rt_inv (tr ++ o0) (rt_set_q st q')).
+    { destruct R as (R & H & SO). split; [|split; assumption]. cbn [app rt_set_q rs_uid].
+      unfold rt_live in *. cbn [rt_set_q rs_q rs_sess app] in *.
+      apply rt_rel_drop_acked. eapply rt_rel_perm; [|exact R].
+      rewrite app_assoc. apply Permutation_app_tail. exact P. }
+    destruct (rt_free_slots_inv (length rm) (rt_set_q st q') s _ [] I1) as [I2 _].
+    destruct (rt_free_slots (length rm) (rt_set_q st q') s) as [st1 o1]. cbn [fst snd] in I2.
+    destruct (rt_fire_all_rel st1 _ I2) as [I3 _]. destruct (rt_fire_all st1) as [st2 o2]. cbn [fst snd] in I3.
+    replace (tr ++ o0 ++ o1 ++ o2) with (((tr ++ o0) ++ o1) ++ o2) by (repeat rewrite <- app_assoc; reflexivity).
+    exact I3.
   - unfold rt_disconnect.
     pose proof (rt_nodes_cancel (rt_sess_match s) (rs_q st)) as P.
-    destruct (sq_cancel (rt_sess_match s) (rs_q st)) as [rm q']. cbn [fst snd rt_set_q rs_uid rs_q] in *.
-    destruct rm as [|n rm].
-    + apply rt_rel_neutral; [intros u; reflexivity|]. eapply rt_rel_perm; [exact P|exact R].
-    + apply rt_rel_drop_nacked; [cbn in Hev; tauto|]. eapply rt_rel_perm; [exact P|exact R].
+    destruct (sq_cancel (rt_sess_match s) (rs_q st)) as [rm q']. cbn [fst snd] in P.
+    destruct R as (R & H & SO). cbn [app] in R.
+    destruct (rt_held_get_set s (rs_sess st)) as (rest & P1 & P2).
+    pose proof (rt_sget_ok s _ SO) as [Oa On]. set (si := rt_sget s (rs_sess st)) in *.
+    set (e := rt_mk_sinfo (si_nstart si) 0 []).
+    assert (Ph : Permutation (rt_held (rt_sset s e (rs_sess st))) rest) by (apply (P2 e)).
+    assert (Pl : Permutation (rt_live st) ((si_hold si ++ rm) ++ rt_nodes q' ++ rest)).
+    { unfold rt_live. eapply Permutation_trans; [apply Permutation_app; [exact P|exact P1]|].
+      replace ((rm ++ rt_nodes q') ++ si_hold si ++ rest) with (((rm ++ rt_nodes q') ++ si_hold si) ++ rest)
+        by (rewrite <- app_assoc; reflexivity).
+      replace ((si_hold si ++ rm) ++ rt_nodes q' ++ rest) with (((si_hold si ++ rm) ++ rt_nodes q') ++ rest)
+        by (rewrite <- !app_assoc; reflexivity).
+      apply Permutation_app_tail.
+      eapply Permutation_trans; [apply Permutation_app_comm|]. rewrite app_assoc. apply Permutation_refl. }
+    assert (Hrest : Forall (fun n => qn_cnt n = -1) rest).
+    { eapply Permutation_Forall in H; [|exact P1]. apply Forall_app in H. tauto. }
+    assert (G : rt_rel (tr ++ map (rt_nack_of (rs_now st) reason) (si_hold si ++ rm)) (rs_uid st)
+                       (rt_nodes q' ++ rest)).
+    { apply rt_rel_drop_nacked; [cbn in Hev; tauto|]. eapply rt_rel_perm; [exact Pl|exact R]. }
+    split; [|split].
+    + cbn [app rt_set_sess rt_set_q rs_uid]. unfold rt_live. cbn [rt_set_sess rt_set_q rs_q rs_sess].
+      eapply rt_rel_perm with (ns := rt_nodes q' ++ rest);
+        [apply Permutation_app_head; apply Permutation_sym; exact Ph|].
+      destruct (si_hold si ++ rm) eqn:Eg; [|exact G].
+      cbn [map] in G. rewrite app_nil_r in G. apply rt_rel_neutral; [intros u; reflexivity|exact G].
+    + cbn [rt_set_sess rs_sess]. eapply Permutation_Forall; [apply Permutation_sym; exact Ph|exact Hrest].
+    + cbn [rt_set_sess rs_sess]. apply rt_sset_ok; [|exact SO]. unfold rt_sinfo_ok. cbn. lia.
   - unfold rt_delete. destruct (sq_remove (rs_q st) s m) as [[[t n] q']|] eqn:Rm.
-    + destruct (rt_nodes_remove _ _ _ _ _ _ Rm) as [P _]. cbn [rt_set_q rs_uid rs_q].
-      eapply rt_rel_drop with (n := n) (tag := PAcked); [intros _; exact I| | |].
+    + pose proof (rt_inv_removed tr st s m t n q' Rm R) as I0.
+      eapply rt_invx_drop with (n := n) (tag := PAcked); [intros _; exact I| | |exact I0].
       * cbn. rewrite Z.eqb_refl. reflexivity.
       * intros u Hu. cbn. assert (X : (qn_uid n =? u) = false) by lia. rewrite X. reflexivity.
-      * eapply rt_rel_perm; [exact P|exact R].
     + rewrite app_nil_r. exact R.
-  - unfold rt_io_process, rt_fire_all.
-    pose proof (rt_fire_rel (rt_budget (rs_q st)) st tr R) as H1.
-    destruct (rt_fire (rt_budget (rs_q st)) st) as [st1 o1]. destruct H1 as [R1 _].
+  - unfold rt_io_process.
+    destruct (rt_fire_all_rel st tr R) as [R1 _]. destruct (rt_fire_all st) as [st1 o1]. cbn [fst snd] in R1.
     destruct (rt_wait st1) as [w hd]. set (et := rt_epoll_timeout w tmo).
-    set (st2 := rt_mk_state _ (rs_base st1) (rs_q st1) (rs_uid st1)).
-    assert (R2 : rt_rel ((tr ++ o1) ++ [RoEpoll (rs_now st1) et]) (rs_uid st2) (rt_nodes (rs_q st2)))
-      by (apply rt_rel_neutral; [intros u; reflexivity|exact R1]).
-    pose proof (rt_fire_rel (rt_budget (rs_q st2)) st2 _ R2) as H3.
-    destruct (rt_fire (rt_budget (rs_q st2)) st2) as [st3 o3]. destruct H3 as [R3 _].
+    set (st2 := rt_set_now st1 _).
+    assert (R2 : rt_inv ((tr ++ o1) ++ [RoEpoll (rs_now st1) et]) st2).
+    { apply rt_invx_neutral; [intros u; reflexivity|].
+      eapply rt_invx_same; [| | |exact R1]; reflexivity || apply Permutation_refl. }
+    destruct (rt_fire_all_rel st2 _ R2) as [R3 _]. destruct (rt_fire_all st2) as [st3 o3]. cbn [fst snd] in R3.
     replace (tr ++ o1 ++ RoEpoll (rs_now st1) et :: o3 ++ [RoIoRet (rs_now st3) (rs_now st3 - rs_now st)])
       with ((((tr ++ o1) ++ [RoEpoll (rs_now st1) et]) ++ o3) ++ [RoIoRet (rs_now st3) (rs_now st3 - rs_now st)])
       by (repeat rewrite <- app_assoc; reflexivity).
-    apply rt_rel_neutral; [intros u; reflexivity|exact R3].
-  - apply rt_rel_neutral; [intros u; reflexivity|exact R].
+    apply rt_invx_neutral; [intros u; reflexivity|exact R3].
+  - apply rt_invx_neutral; [intros u; reflexivity|exact R].
 Qed.
 
 Lemma rt_run_rel : forall evs st tr,
-  Forall rt_ev_ok evs ->
-  rt_rel tr (rs_uid st) (rt_nodes (rs_q st)) ->
-  let (st', o) := rt_run st evs in
-  rt_rel (tr ++ o) (rs_uid st') (rt_nodes (rs_q st')).
+  Forall rt_ev_ok evs -> rt_inv tr st ->
+  let (st', o) := rt_run st evs in rt_inv (tr ++ o) st'.
 Proof.
   induction evs as [|ev rest IH]; intros st tr F R; cbn [rt_run].
   - rewrite app_nil_r. exact R.
@@ -402,43 +726,60 @@ Proof.
     destruct (rt_run st1 rest) as [st2 o2]. rewrite app_assoc. exact IH.
 Qed.
 
+(* the initial state: sessions with their NSTART (at least 1), nothing pending *)
+Definition rt_nst_ok (nst : list (Z * Z)) : Prop := Forall (fun p => 1 <= snd p) nst.
+
+Lemma rt_held_init : forall nst, rt_held (map (fun p => (fst p, rt_mk_sinfo (snd p) 0 [])) nst) = [].
+Proof. induction nst as [|p r IH]; [reflexivity|]. cbn. exact IH. Qed.
+
+Lemma rt_inv_init : forall t0 nst, rt_nst_ok nst -> rt_inv [] (rt_init t0 nst).
+Proof.
+  intros t0 nst H. unfold rt_inv, rt_invx, rt_init, rt_live. cbn [rs_uid rs_q rs_sess app rt_nodes map].
+  rewrite rt_held_init. split; [exact rt_rel_init|]. split; [constructor|].
+  unfold rt_slots_ok. rewrite Forall_map. eapply Forall_impl; [|exact H].
+  intros p Hp. unfold rt_sinfo_ok. cbn in *. lia.
+Qed.
+
 (* ------------------------------------------------------------------ C06_one_outcome *)
 (* the three possible shapes of a message's history *)
 Definition rt_shape (l : list rt_tag) : Prop :=
-  l = [] \/                                                   (* never accepted *)
+  l = [] \/                                                   (* never accepted, or waiting for a slot *)
   (exists b j, l = repeat (PTx b) (S j) /\ (j <= 255)%nat) \/ (* pending: transmissions only *)
   rt_closed l.                                                (* transmissions, one outcome *)
 
-Theorem rt_one_outcome : forall t0 evs u,
-  Forall rt_ev_ok evs ->
-  let (st, tr) := rt_run (rt_init t0) evs in
+Theorem rt_one_outcome : forall t0 nst evs u,
+  rt_nst_ok nst -> Forall rt_ev_ok evs ->
+  let (st, tr) := rt_run (rt_init t0 nst) evs in
   rt_shape (rt_proj u tr) /\
-  (* pending <-> still queued, and then it was transmitted retransmit_cnt + 1 times, at most
-     max_retransmit + 1 *)
-  (forall n, In n (rt_nodes (rs_q st)) -> qn_uid n = u ->
-     rt_proj u tr = repeat (PTx (qn_bytes n)) (S (Z.to_nat (qn_cnt n))) /\
-     0 <= qn_cnt n <= qn_max n) /\
-  (~ In u (map qn_uid (rt_nodes (rs_q st))) -> rt_proj u tr = [] \/ rt_closed (rt_proj u tr)).
+  (* pending <-> still queued or waiting for a slot, and then it was transmitted
+     retransmit_cnt + 1 times (not yet: counter -1), at most max_retransmit + 1 *)
+  (forall n, In n (rt_live st) -> qn_uid n = u ->
+     rt_proj u tr = repeat (PTx (qn_bytes n)) (Z.to_nat (qn_cnt n + 1)) /\
+     -1 <= qn_cnt n <= qn_max n) /\
+  (~ In u (map qn_uid (rt_live st)) -> rt_proj u tr = [] \/ rt_closed (rt_proj u tr)).
 Proof.
-  intros t0 evs u F.
-  pose proof (rt_run_rel evs (rt_init t0) [] F rt_rel_init) as H.
-  destruct (rt_run (rt_init t0) evs) as [st tr]. cbn [app] in H.
-  destruct H as (K & D & Fn & C).
-  assert (Q : forall n, In n (rt_nodes (rs_q st)) -> qn_uid n = u ->
-     rt_proj u tr = repeat (PTx (qn_bytes n)) (S (Z.to_nat (qn_cnt n))) /\
-     0 <= qn_cnt n <= qn_max n /\ qn_max n <= 255).
+  intros t0 nst evs u Hn F.
+  pose proof (rt_run_rel evs (rt_init t0 nst) [] F (rt_inv_init t0 nst Hn)) as H.
+  destruct (rt_run (rt_init t0 nst) evs) as [st tr]. cbn [app] in H.
+  destruct H as ((K & D & Fn & C) & _ & _). cbn [app] in *.
+  assert (Q : forall n, In n (rt_live st) -> qn_uid n = u ->
+     rt_proj u tr = repeat (PTx (qn_bytes n)) (Z.to_nat (qn_cnt n + 1)) /\
+     -1 <= qn_cnt n <= qn_max n /\ qn_max n <= 255).
   { intros n I E. rewrite Forall_forall in Fn. destruct (Fn n I) as (A & B & M & O).
-    subst u. unfold rt_open in O. tauto. }
-  assert (Cl : ~ In u (map qn_uid (rt_nodes (rs_q st))) -> rt_proj u tr = [] \/ rt_closed (rt_proj u tr)).
+    subst u. unfold rt_open in O. split; [exact O|lia]. }
+  assert (Cl : ~ In u (map qn_uid (rt_live st)) -> rt_proj u tr = [] \/ rt_closed (rt_proj u tr)).
   { intros Hu. destruct (C u Hu) as [C1 C2].
     destruct (Z_le_gt_dec 0 u); [destruct (Z_lt_le_dec u (rs_uid st))|].
     - right. apply C1. lia.
     - left. apply C2. lia.
     - left. apply C2. lia. }
   split; [|split].
-  - destruct (in_dec Z.eq_dec u (map qn_uid (rt_nodes (rs_q st)))) as [I|NI].
+  - destruct (in_dec Z.eq_dec u (map qn_uid (rt_live st))) as [I|NI].
     + apply in_map_iff in I. destruct I as (n & E & I). destruct (Q n I E) as (P & B & M).
-      right; left. exists (qn_bytes n), (Z.to_nat (qn_cnt n)). split; [exact P|lia].
+      destruct (Z.eq_dec (qn_cnt n) (-1)) as [Em|Em].
+      * left. rewrite P, Em. reflexivity.
+      * right; left. exists (qn_bytes n), (Z.to_nat (qn_cnt n)). split; [|lia].
+        rewrite P. f_equal. lia.
     + destruct (Cl NI) as [E|E]; [left; exact E|right; right; exact E].
   - intros n I E. destruct (Q n I E) as (P & B & M). tauto.
   - exact Cl.
@@ -465,19 +806,21 @@ Theorem rt_known_ack_rst : forall st s m t n q',
   (exists l1 l2 d, sq_abs (rs_base st) (rs_q st) = l1 ++ (d, n) :: l2 /\
                    sq_abs (rs_base st) q' = l1 ++ l2 /\
                    Forall (fun x => sq_match s m (snd x) = false) l1) /\
+  (* the freed NSTART slot goes to a waiting message of that session (if any), then a prepare *)
   rt_step st (RtAck s m) =
-    (fst (rt_fire_all (rt_set_q st q')), RoAcked (rs_now st) (qn_uid n) :: snd (rt_fire_all (rt_set_q st q'))) /\
+    (let (st1, o1) := rt_free_slot (rt_set_q st q') s in
+     let (st2, o2) := rt_fire_all st1 in
+     (st2, RoAcked (rs_now st) (qn_uid n) :: o1 ++ o2)) /\
   rt_step st (RtRst s m) =
-    (fst (rt_fire_all (rt_set_q st q')),
-     RoNack (rs_now st) (qn_uid n) (qn_sess n) rt_NACK_RST (qn_mid n) (qn_cnt n) (qn_max n)
-       :: snd (rt_fire_all (rt_set_q st q'))).
+    (let (st1, o1) := rt_free_slot (rt_set_q st q') s in
+     let (st2, o2) := rt_fire_all st1 in
+     (st2, o1 ++ RoNack (rs_now st) (qn_uid n) (qn_sess n) rt_NACK_RST (qn_mid n) (qn_cnt n) (qn_max n) :: o2)).
 Proof.
   intros st s m t n q' H.
   destruct (sq_remove_others _ (rs_base st) _ _ _ _ _ H) as (l1 & l2 & d & E1 & E2 & M & F).
   unfold sq_match in M. apply andb_true_iff in M. destruct M as [M1 M2].
   split; [lia|]. split; [lia|]. split; [exists l1, l2, d; auto|].
-  cbn [rt_step]. unfold rt_ack, rt_rst. rewrite H.
-  destruct (rt_fire_all (rt_set_q st q')); split; reflexivity.
+  cbn [rt_step]. unfold rt_ack, rt_rst. rewrite H. split; reflexivity.
 Qed.
 
 (* ------------------------------------------------------------------ session disconnect *)
@@ -488,16 +831,19 @@ Theorem rt_disconnect_spec : forall st s reason,
   sq_abs (rs_base st') (rs_q st') =
     filter (fun e => negb (rt_sess_match s (snd e))) (sq_abs (rs_base st) (rs_q st)) /\
   rs_now st' = rs_now st /\
-  let rm := filter (rt_sess_match s) (rt_nodes (rs_q st)) in
+  (* first the messages of the session that wait for a slot, then its queued ones *)
+  let rm := si_hold (rt_sget s (rs_sess st)) ++ filter (rt_sess_match s) (rt_nodes (rs_q st)) in
   o = match rm with
       | [] => [RoNackNoPdu (rs_now st) s reason 0]
       | _ => map (rt_nack_of (rs_now st) reason) rm
-      end.
+      end /\
+  si_hold (rt_sget s (rs_sess st')) = [] /\ si_active (rt_sget s (rs_sess st')) = 0.
 Proof.
   intros st s reason. unfold rt_disconnect.
   destruct (sq_abs_cancel (rt_sess_match s) (rs_q st) (rs_base st)) as [A B].
   destruct (sq_cancel (rt_sess_match s) (rs_q st)) as [rm q']. cbn [fst snd] in *.
-  cbn [rt_set_q rs_base rs_q rs_now]. split; [exact A|]. split; [reflexivity|].
+  cbn [rt_set_sess rt_set_q rs_base rs_q rs_now rs_sess]. split; [exact A|]. split; [reflexivity|].
+  rewrite rt_sget_sset. cbn [si_hold si_active]. split; [|split; reflexivity].
   unfold rt_nodes. rewrite <- B. reflexivity.
 Qed.
 
@@ -506,7 +852,7 @@ Theorem rt_disconnect_old_double_nack : exists st s reason u,
   reason <> rt_NACK_TOO_MANY_RETRIES /\ reason <> rt_NACK_ICMP_ISSUE /\
   rt_proj u (snd (rt_disconnect_old st s reason)) = [PNack reason 0 4; PNack reason 0 4].
 Proof.
-  exists (rt_mk_state 600 0 [(2000, sq_mk_node 0 0 10 0 2000 4 []); (500, sq_mk_node 1 1 20 0 2000 4 [])] 2),
+  exists (rt_mk_state 600 0 [(2000, sq_mk_node 0 0 10 0 2000 4 []); (500, sq_mk_node 1 1 20 0 2000 4 [])] 2 []),
          0, 1, 0.
   split; [discriminate|]. split; [discriminate|]. vm_compute. reflexivity.
 Qed.
@@ -526,4 +872,33 @@ Proof.
     destruct (sq_remove_others _ (rs_base st) _ _ _ _ _ H) as (l1 & l2 & d & E1 & E2 & _ & _).
     exists l1, l2, d. auto.
   - intros H. unfold rt_delete. rewrite H. reflexivity.
+Qed.
+
+(* ------------------------------------------------------------------ the two places where T is drawn *)
+Theorem rt_send_free_spec : forall st s m b cfg r,
+  si_active (rt_sget s (rs_sess st)) < si_nstart (rt_sget s (rs_sess st)) ->
+  snd (rt_send st s m b cfg r) =
+  [RoTx (rs_now st) (rs_uid st) s b 0
+        (fp_calc_timeout (rc_at_ip cfg) (rc_at_fp cfg) (rc_arf_ip cfg) (rc_arf_fp cfg) r);
+   RoSent m].
+Proof.
+  intros st s m b cfg r H. unfold rt_send.
+  assert (E : (si_nstart (rt_sget s (rs_sess st)) <=? si_active (rt_sget s (rs_sess st))) = false) by lia.
+  rewrite E. reflexivity.
+Qed.
+
+Theorem rt_send_held_spec : forall st s m b cfg r,
+  let si := rt_sget s (rs_sess st) in
+  si_nstart si <= si_active si ->
+  existsb (fun n => qn_mid n =? m) (si_hold si) = false ->
+  let st' := fst (rt_send st s m b cfg r) in
+  snd (rt_send st s m b cfg r) = [RoSent m] /\ rs_q st' = rs_q st /\
+  si_hold (rt_sget s (rs_sess st')) =
+    si_hold si ++ [sq_mk_node (rs_uid st) s m (-1)
+                     (fp_calc_timeout (rc_at_ip cfg) (rc_at_fp cfg) (rc_arf_ip cfg) (rc_arf_fp cfg) r)
+                     (rc_max cfg) b].
+Proof.
+  intros st s m b cfg r si H Ex st'. unfold st', rt_send. fold si.
+  assert (E : (si_nstart si <=? si_active si) = true) by lia. rewrite E, Ex. cbn [fst snd rs_q rs_sess].
+  rewrite rt_sget_sset. cbn [si_hold]. auto.
 Qed.
